@@ -7,6 +7,8 @@ import (
 	"go/types"
 	"strings"
 
+	"golang.org/x/tools/go/packages"
+
 	"golang.org/x/tools/go/ssa"
 )
 
@@ -151,7 +153,7 @@ func checkC31(c *Ctx) (string, []string) {
 
 	c.Rule("C31.admission", "validateSortUnique rejects exactly when, for some adjacent pair, requester[i−1] > requester[i] or (equal and blob[i−1] ≥ blob[i]) (tabulated over all requester orderings and comparison outcomes); ValidatePreimageExtrinsics returns that error before looking at any entry, then rejects an entry unless ShouldIntegratePreimage(δ, requester, Blake2b(blob), |blob|) — which, for a known request, holds iff the preimage is not stored and the request's slot list is empty", 6)
 	if fd, p := c.FuncDecl(accPkg, "validateSortUnique"); fd != nil {
-		c31SortUnique(c, fd, p.TypesInfo)
+		c31SortUnique(c, fd, p)
 	}
 	vpe := c.Fn(accPkg, "ValidatePreimageExtrinsics")
 	vsu := c.Fn(accPkg, "validateSortUnique")
@@ -291,7 +293,9 @@ func checkC31(c *Ctx) (string, []string) {
 }
 
 // c31SortUnique tabulates the two rejection conditions of the loop body.
-func c31SortUnique(c *Ctx, fd *ast.FuncDecl, info *types.Info) {
+func c31SortUnique(c *Ctx, fd *ast.FuncDecl, pkg *packages.Package) {
+	info := pkg.TypesInfo
+	_ = info
 	key := accPkg + ".validateSortUnique"
 	eps := fd.Type.Params.List[0].Names[0].Name
 	var loop *ast.ForStmt
@@ -328,8 +332,12 @@ func c31SortUnique(c *Ctx, fd *ast.FuncDecl, info *types.Info) {
 	}
 	bad := ""
 	n := 0
-	for rp := int64(0); rp < 3 && bad == ""; rp++ {
-		for rc := int64(0); rc < 3 && bad == ""; rc++ {
+	dom := []int64{0, 1, 2, 1 << 31, 1<<31 + 1, 1<<32 - 1}
+	for _, rp := range dom {
+		for _, rc := range dom {
+			if bad != "" {
+				break
+			}
 			for cmp := int64(-1); cmp <= 1 && bad == ""; cmp++ {
 				resolve := func(a ast.Expr) (astVal, bool) {
 					switch x := a.(type) {
@@ -369,7 +377,8 @@ func c31SortUnique(c *Ctx, fd *ast.FuncDecl, info *types.Info) {
 							if x.Init != nil {
 								return "?"
 							}
-							v, ok := astEval(info, x.Cond, resolve)
+							env := &astEnv{pkg: pkg, resolve: resolve}
+							v, ok := env.eval(x.Cond)
 							if !ok || !v.isBool {
 								return "?" + types.ExprString(x.Cond)
 							}
